@@ -7,11 +7,6 @@ Screen effect of the pieces a live display writes: user lines, a frame, `positio
 namespace RichModel.Live
 open RichModel RichModel.Screen
 
-/-- The rows a displayed frame occupies: an empty frame still has the (blank) row the cursor is on. -/
-def region : Frame → Frame
-  | [] => [[]]
-  | l :: rest => l :: rest
-
 theorem region_length_pos (F : Frame) : 1 ≤ (region F).length := by
   cases F <;> simp [region]
 
